@@ -88,6 +88,13 @@ CLAIMED.update({
     },
 })
 
+CLAIMED.update({
+    "C12": {
+        "text": "Depth-bounded exhaustive search (state-hash pruning; transitions memoised per (state, event, fault decisions)) over sequences of: Composition edits to five contents (spec change, label-only, annotation-only, step-input change, incl. A-B-A reverts), real revision-controller reconciles in which every API call is a fault/crash point, stripping the owner references of all revisions (backup/restore), deletion of the oldest revision, and real XR reconciles for a Manual, an Automatic and an Automatic-with-selector XR; from a fresh state and from a prepared three-revision history. R1 one revision per content hash, R2 revision specs never edited apart from the number, R3 numbers never decrease, R4 after a completed reconcile the current content's revision has the strictly highest number, R5 Manual XRs keep their revision and Automatic XRs end on the highest-numbered controlled (selector-matching) revision.",
+        "technique": "explicit-state search over event sequences with the real reconcilers as transition function, plus fault/crash-point enumeration",
+    },
+})
+
 PENDING_REASON = "not claimed yet: the check for this property is still being built (design in DESIGN.md section 3); no technique switch is intended"
 
 
